@@ -43,4 +43,9 @@ Step(c) ==
                                   ELSE IF st' = "warning"
                                          THEN (IF rc0[1] = -1 THEN <<total, rc0[2]>> ELSE rc0)
                                   ELSE <<(IF rc0[1] = -1 THEN total ELSE rc0[1]), total>>)
+(* user-initiated reset(): the epoch statistics and the recommendation restart, the total is kept *)
+Reset == /\ since' = 0 /\ st' = "None" /\ recs' = NoRecs /\ rate' = "0.0" /\ std' = "0.0" /\ rmin' = INF /\ smin' = INF
+         /\ UNCHANGED <<cfg, total>>
+(* a call refused by input validation right after a drift has already performed the pending automatic reset *)
+PendingReset == st = "drift" /\ Reset
 ==========================================================================
